@@ -22,7 +22,7 @@
    Ownership: [EClear] marks the return of clear(); Owner.v puts the mode lifecycle of mode.py on top (stop request and
    wind-up both clear the mode's manager): delay_never_fires_after_clear / delay_never_fires_after_owner_stopped. *)
 From Common Require Import Prelude.
-From C13 Require Import Model Lemmas Timer TimerLemmas Owner OwnerLemmas.
+From C13 Require Import Model Lemmas Timer TimerLemmas Owner OwnerLemmas NameLemmas.
 Open Scope Z_scope.
 
 (* every event is justified by what happened before it (see [justified] in Lemmas.v):
@@ -252,8 +252,8 @@ Example ex_mode_control_event :
   m_trace [] (mkM true false false false)
     [MCtl 0 500; MFire 0 500000; MCtl 600000 500; MStop 700000; MStopped 700000; MWoundUp 700000; MCtl 800000 500;
      MOps 2000000 []] =
-  [EAdd 0 0 (-1) 500 (-2) []; EDict [-1]; ECall 500000 0 (-2) [] false;
-   EAdd 600000 1 (-2) 500 (-2) []; EDict [-2];
+  [EAdd 0 0 (-2) 500 (-2) []; EDict [-2]; ECall 500000 0 (-2) [] false;
+   EAdd 600000 1 (-3) 500 (-2) []; EDict [-3];
    EKill 1; EClear; EMode 1 700000; EMode 19 700000; EDict [];
    EMode 2 700000; EMode 24 700000; EDict [];
    EClear; EMode 3 700000; EMode 16 700000; EDict []; EDict []; EDict []].
@@ -467,3 +467,90 @@ Example ex_periodic :
   p_time_ok (fst (p_run 0 1000 [PRun; PRun])) 3000 = true.
 Proof. vm_compute. repeat split; reflexivity. Qed.
 Print Assumptions ex_periodic.
+
+(* ---------------------------------------------------------------------------------------------------------------- *)
+(* Names returned by add() (session 4).  add(name=None) generates a name and RETURNS it ([add_ret]; [gen_name u] for the
+   add with id u); clients keep it and pass it to check/remove/run_now/reset/add_if_doesnt_exist later ([n <= -2] in
+   operations), also when its delay has long fired, been removed or been cleared (owner stopped).  [plain] histories:
+   the client passes only its own names (>= 0) or None to add-like calls; [other_than n]: anything but n. *)
+
+(* a generated name is handed out once: two adds of any history that carry the same generated name are the same add, and
+   the name is the generated name of exactly that add's id *)
+Theorem names_never_reused :
+  forall scripts steps,
+    scripts_ok plain scripts = true -> steps_ok plain steps = true ->
+    forall t u n ms c k t' u' ms' c' k',
+      In (EAdd t u n ms c k) (trace false scripts steps) -> In (EAdd t' u' n ms' c' k') (trace false scripts steps) ->
+      n < 0 -> EAdd t u n ms c k = EAdd t' u' n ms' c' k' /\ n = gen_name u.
+Proof. exact names_never_reused_l. Qed.
+Print Assumptions names_never_reused.
+
+(* the same for a mode-owned manager across stop / wind-up / restart of the mode and its delayed control events *)
+Theorem mode_names_never_reused :
+  forall scripts m0 steps,
+    scripts_ok plain scripts = true -> msteps_ok plain steps = true ->
+    forall t u n ms c k t' u' ms' c' k',
+      In (EAdd t u n ms c k) (m_trace scripts m0 steps) -> In (EAdd t' u' n ms' c' k') (m_trace scripts m0 steps) ->
+      n < 0 -> EAdd t u n ms c k = EAdd t' u' n ms' c' k' /\ n = gen_name u.
+Proof. exact mode_names_never_reused_l. Qed.
+Print Assumptions mode_names_never_reused.
+
+(* what add(name=None) returns on any reachable state: a name no client could know and that denotes nothing; after the
+   call it is known and pending *)
+Theorem add_returns_fresh_name :
+  forall scripts steps ms cb kw,
+    scripts_ok plain scripts = true -> steps_ok plain steps = true ->
+    let st := run_from false scripts steps init in
+    let n := add_ret (-1) st in
+    n = gen_name (next st) /\ known st n = false /\ check st n = false /\
+    known (do_add ms (-1) cb kw st) n = true /\ check (do_add ms (-1) cb kw st) n = true.
+Proof. exact add_returns_fresh_l. Qed.
+Print Assumptions add_returns_fresh_name.
+
+(* a stale generated name (handed out, denotes no pending delay: fired / removed / cleared) stays stale FOR EVER, whatever
+   further steps and callback scripts do - new anonymous adds included; only the client passing that very name to an
+   add-like call is excluded - and every operation on it is a no-op: check False, remove / run_now change nothing *)
+Theorem stale_name_noop_forever :
+  forall scripts0 steps0 n scripts steps,
+    let st0 := run_from false scripts0 steps0 init in
+    stale n st0 -> scripts_ok (other_than n) scripts = true -> steps_ok (other_than n) steps = true ->
+    let st := run_from false scripts steps st0 in
+    stale n st /\ check st n = false /\ do_remove n st = st /\ (forall call, do_run_now false call n st = st) /\
+    do_check n st = emit (ECheck n false false) st.
+Proof. exact stale_noop_forever_l. Qed.
+Print Assumptions stale_name_noop_forever.
+
+(* ... through the lifecycle of the owning mode: the stop clears, the next run of the mode adds new anonymous delays
+   (mode code and delayed control events); a name kept from the earlier run never denotes one of them *)
+Theorem mode_stale_name_noop_forever :
+  forall scripts0 m0 steps0 n scripts steps,
+    let ms0 := m_run scripts0 m0 steps0 in
+    stale n (snd ms0) -> scripts_ok (other_than n) scripts = true -> msteps_ok (other_than n) steps = true ->
+    let st := snd (fold_left (m_step scripts) steps ms0) in
+    stale n st /\ check st n = false /\ do_remove n st = st /\ (forall call, do_run_now false call n st = st).
+Proof. exact mode_stale_forever_l. Qed.
+Print Assumptions mode_stale_name_noop_forever.
+
+(* how a name becomes stale: remove(name) / clear() on any state satisfying the invariant of reachable states *)
+Theorem stale_after_remove_or_clear :
+  forall n st, Inv st -> n < -1 -> -2 - n < next st -> stale n (do_remove n st) /\ stale n (do_clear st).
+Proof. intros n st I Hn Hk. split; [apply stale_after_remove|apply stale_after_clear]; assumption. Qed.
+Print Assumptions stale_after_remove_or_clear.
+
+(* example: anonymous add (returns -2), clear, two new anonymous adds (-3, -4): the stale name -2 is not pending, remove /
+   run_now on it do nothing, add_if_doesnt_exist under it adds (and only then it denotes something again); a name not
+   yet handed out (-9) cannot be used *)
+Example ex_stale_names :
+  trace false [] [Ext 0 [Add 500 (-1) (-1) [1; 1]; Clear; Add 500 (-1) (-1) [2; 2]; Add 250 (-1) (-1) [];
+                         Check (-2); Remove (-2); RunNow (-2); Check (-3); AddIfNot 125 (-9) (-1) []];
+                  Fire 2; Ext 300000 [AddIfNot 125 (-2) (-1) [3; 3]; AddIfNot 125 (-3) (-1) []; Check (-2)]] =
+  [EAdd 0 0 (-2) 500 (-1) [1; 1]; EKill 0; EClear; EAdd 0 1 (-3) 500 (-1) [2; 2]; EAdd 0 2 (-4) 250 (-1) [];
+   ECheck (-2) false false; ECheck (-3) true true; EDict [-3; -4];
+   ECall 250000 2 (-1) [] false;
+   EAdd 300000 3 (-2) 125 (-1) [3; 3]; ECheck (-2) true true; EDict [-3; -2]] /\
+  (let st0 := run_from false [] [Ext 0 [Add 500 (-1) (-1) [1; 1]; Clear; Add 500 (-1) (-1) [2; 2]]] init in
+   live_name (-2) (timers st0) = false /\ -2 - -2 < next st0 /\
+   steps_ok (other_than (-2)) [Ext 0 [Add 250 (-1) (-1) []; Remove (-2); Reset 100 (-3) (-1) []]] = true /\
+   steps_ok plain [Ext 0 [Add 250 (-1) (-1) []; Remove (-2); Reset 100 0 (-1) []]] = true).
+Proof. vm_compute. repeat split; reflexivity. Qed.
+Print Assumptions ex_stale_names.
